@@ -10,7 +10,10 @@
 (* the deletion branch is the same for both.                               *)
 (***************************************************************************)
 EXTENDS Integers, Sequences, TLC
-CONSTANTS MaxRecs, MaxFaults, LockStates   \* LockStates \subseteq {"entry", "noentry", "nolock"}
+CONSTANTS MaxRecs, MaxFaults, LockStates   \* LockStates \subseteq {"entry", "entryfirst", "entryonly", "noentry", "nolock"}
+\* where the revision's entry sits in the Lock: after another package's ("entry"), before it ("entryfirst"), alone ("entryonly") -
+\* the position changes nothing (added after the seeded change C08-m7, a removal that skips index 0, was only caught by X07)
+Has(l) == l \in {"entry", "entryfirst", "entryonly"}
 VARIABLES lock, desired, fin, ex, pc, recs, faults, hist
 vars == <<lock, desired, fin, ex, pc, recs, faults, hist>>
 view == <<lock, desired, fin, ex, pc, recs, faults>>
@@ -27,7 +30,7 @@ Get == /\ pc = "idle" /\ ex /\ recs < MaxRecs
           \/ Fail("get:rev")
        /\ UNCHANGED <<lock, fin, ex>>
 GetLock == /\ pc = "getlock"
-           /\ \/ /\ Ok("get:lock") /\ pc' = (IF lock = "entry" THEN "updlock" ELSE "remfin") /\ UNCHANGED recs
+           /\ \/ /\ Ok("get:lock") /\ pc' = (IF Has(lock) THEN "updlock" ELSE "remfin") /\ UNCHANGED recs
               \/ Fail("get:lock")
            /\ UNCHANGED <<lock, fin, ex>>
 UpdLock == /\ pc = "updlock"
@@ -42,5 +45,5 @@ RemFin == /\ pc = "remfin"
           /\ UNCHANGED lock
 Next == (Get \/ GetLock \/ UpdLock \/ RemFin) /\ UNCHANGED desired
 Spec == Init /\ [][Next]_vars
-LockBeforeFin == [][(fin /\ ~fin') => lock # "entry"]_vars
+LockBeforeFin == [][(fin /\ ~fin') => ~Has(lock)]_vars
 =============================================================================
